@@ -170,9 +170,11 @@ def subtract_sets(a, b):
 def configs(tier):
     out = []
     L = 2
-    sizes = (3, 5) if tier == "quick" else (2, 3, 5, 6, 7)
+    sizes = (3, 4, 5) if tier == "quick" else (2, 3, 4, 5, 6, 7)
     for nak, size, mpl in itertools.product(("imm", "def"), sizes, (512, 35, 27)):
         if tier == "quick" and size == 5 and (nak, mpl) not in (("imm", 27), ("def", 35)):
+            continue
+        if tier == "quick" and size == 4 and (nak, mpl) not in (("imm", 512), ("def", 27)):  # exact multiple of the segment length
             continue
         rep = 2 if size <= 5 else 1
         out.append(dict(mode="ack", nak=nak, size=size, seg=L, mpl=mpl, closure=False, rep=rep, nak_limit=3, ack_limit=2))
@@ -190,8 +192,8 @@ def run(tier: str) -> int:
                    "repetitions_per_pdu": 2, "nak_modes": ["imm", "def"]}
     worlds = [C06World(**kw) for kw in cfgs]
     kw = dict(check_cycles=False, validate_stride=2999, validate_terminals=10, n_samples=1, max_states=2_000_000, max_wall=(600 if tier == 'quick' else None))
-    small = [w for w in worlds if w.c["size"] <= 3]
-    big = [w for w in worlds if w.c["size"] > 3]
+    small = [w for w in worlds if w.c["size"] <= 4]
+    big = [w for w in worlds if w.c["size"] > 4]
     run_.add_all(explore_many(small, procs=NPROC, **kw))
     for w in big:
         if run_.found_something():
